@@ -12,10 +12,12 @@ TB = ("Trusted: Lean 4.33 kernel (+leanchecker in the thorough tier), Mathlib v4
 
 CHECKS = {
     "C02": dict(
-        technique="Lean 4 proof (induction over the ASTM stack machine, any ordered field) + exact Rat correspondence",
+        technique="Lean 4 proof (induction over the ASTM stack machine, any ordered field; three-point rule re-proved against the expressions regenerated from rainflow.cycles by the translator) + exact Rat correspondence",
         text="Theorems for all finite sequences over any linearly ordered field: conservation 2*full+half = points-1, strict "
              "alternation of counted points, largest range = span, counts in {1, 1/2}, table = sorted permutation of the cycles, "
-             "empty table when nothing is counted. The model is the three-point procedure itself and is tied to "
+             "empty table when nothing is counted. The model is the three-point procedure itself; its step is proved equal to the one "
+             "written with the expressions for X, Y and the mean regenerated from rainflow.cycles on every run (reduce_is_source, "
+             "leftovers_is_source), and it is tied to "
              "rainflow.reversals/cycles/count_cycles and TimeSeries.rfc by exact (Rat) correspondence on every run.",
         note=TB + "Modelled: generator/deque control flow of reversals()/cycles(), two-key sort of count_cycles. Float range ties are outside the theorems.",
         ref="4/C02"),
